@@ -95,6 +95,9 @@ if __name__ == "__main__":
     elif len(sys.argv) > 2 and sys.argv[2] == "--round5":
         for x in (sys.argv[3:] or ["A", "B"]):
             print(json.dumps(verify(pid, x, src="/tmp/wt5/%s/out" % pid, name=pid + "r5")))
+    elif len(sys.argv) > 2 and sys.argv[2] == "--round6":
+        for x in (sys.argv[3:] or ["A", "B"]):
+            print(json.dumps(verify(pid, x, src="/tmp/wt6/%s/out" % pid, name=pid + "r6")))
     elif len(sys.argv) > 2 and sys.argv[2] == "--round4":
         for x in (sys.argv[3:] or ["A", "B"]):
             print(json.dumps(verify(pid, x, src="/tmp/wt4/%s/out" % pid, name=pid + "r4")))
